@@ -524,6 +524,7 @@ def run(ctx):
     polyrun.poly_stream(ctx, ctx.rng("c03-poly"), 2000 if th else 400)
     # memoised thunks: speculative waits and settlements in any order against the engine without memory
     thunkrun.thunk_stream(ctx, ctx.rng("c03-thunk"), 2500 if th else 500)
+    thunkrun.await_stream(ctx, ctx.rng("c03-await"), 1500 if th else 300)
 
 
 def search(ctx, broken):
